@@ -652,6 +652,9 @@ func genC07(g *Gen) error {
 	if err := genC07Col(g); err != nil {
 		return err
 	}
+	if err := genC07Meta(g); err != nil {
+		return err
+	}
 	g.Footer()
 	return nil
 }
